@@ -1,88 +1,94 @@
 (* C17 — the serialized form is the portable u32-digit format and round-trips exactly.
    Statements only; proofs live in proofs/SerdeProofs.v.  [le_digits (2^32) n] = the base-2^32
    digits of n, least significant first, without a high zero ([] for 0). *)
-From BigNum Require Import Base BaseLemmas SpecBytes BytesLemmas Iter Bytes Serde SerdeProofs.
+From BigNum Require Import Base BaseLemmas SpecBytes BytesLemmas Iter Bytes Serde SerdeProofs
+  Extracted InstSerde.
 Open Scope Z_scope.
+
+(* The theorems are proved generically in the source-extracted decision points of the two
+   serde.rs files and instantiated here at `Extracted.serde` (inst/InstSerde.v). *)
+Local Notation SP := Extracted.serde.
+Local Notation sok := serde_params_ok.
 
 (** a BigUint serializes as exactly its base-2^32 digits with the exact declared length *)
 Theorem C17_ser_biguint : forall x, canon x ->
-  ser_biguint x = (Z.of_nat (length (le_digits (2 ^ 32) (val x))), le_digits (2 ^ 32) (val x)).
-Proof. apply ser_biguint_spec. Qed.
+  ser_biguint SP x = (Z.of_nat (length (le_digits (2 ^ 32) (val x))), le_digits (2 ^ 32) (val x)).
+Proof. intros x; apply (ser_biguint_spec SP x sok). Qed.
 Print Assumptions C17_ser_biguint.
-Theorem C17_ser_declared_len : forall x, fst (ser_biguint x) = Z.of_nat (length (snd (ser_biguint x))).
-Proof. apply ser_biguint_declared_len. Qed.
+Theorem C17_ser_declared_len : forall x, fst (ser_biguint SP x) = Z.of_nat (length (snd (ser_biguint SP x))).
+Proof. intros x; apply (ser_biguint_declared_len SP x sok). Qed.
 Print Assumptions C17_ser_declared_len.
 Theorem C17_ser_no_trailing_zero : forall x, canon x ->
-  snd (ser_biguint x) = [] \/ last (snd (ser_biguint x)) 0 <> 0.
-Proof. apply ser_biguint_no_trailing_zero. Qed.
+  snd (ser_biguint SP x) = [] \/ last (snd (ser_biguint SP x)) 0 <> 0.
+Proof. intros x; apply (ser_biguint_no_trailing_zero SP x sok). Qed.
 Print Assumptions C17_ser_no_trailing_zero.
-Theorem C17_ser_zero : ser_biguint [] = (0, []).
+Theorem C17_ser_zero : ser_biguint SP [] = (0, []).
 Proof. reflexivity. Qed.
 Print Assumptions C17_ser_zero.
 
 (** a BigInt is the pair (sign as -1/0/1, that sequence) *)
 Theorem C17_ser_bigint : forall x, icanon x ->
-  ser_bigint x = (Z.sgn (ival x), spec_ser (Z.abs (ival x))).
-Proof. apply ser_bigint_spec. Qed.
+  ser_bigint SP x = (Z.sgn (ival x), spec_ser (Z.abs (ival x))).
+Proof. intros x; apply (ser_bigint_spec SP x sok). Qed.
 Print Assumptions C17_ser_bigint.
 
 (** deserializing ANY element sequence under ANY size hint: elements that are not u32 are
     rejected; otherwise the canonical value Σ w_i 2^(32 i) — trailing zeros, odd lengths included *)
 Theorem C17_de_biguint : forall hint w,
-  de_biguint_tokens hint w =
+  de_biguint_tokens SP hint w =
   if forallb is_word w then Some (enc (le_value (2 ^ 32) w)) else None.
 Proof.
-  intros. rewrite de_biguint_tokens_spec. unfold spec_de. destruct (forallb is_word w); reflexivity.
+  intros. rewrite de_biguint_tokens_spec by exact sok. unfold spec_de. destruct (forallb is_word w); reflexivity.
 Qed.
 Print Assumptions C17_de_biguint.
-Theorem C17_de_biguint_value : forall w, inb (2 ^ 32) w -> de_biguint w = enc (le_value (2 ^ 32) w).
-Proof. apply de_biguint_spec. Qed.
+Theorem C17_de_biguint_value : forall w, inb (2 ^ 32) w -> de_biguint SP w = enc (le_value (2 ^ 32) w).
+Proof. intros w; apply (de_biguint_spec SP w sok). Qed.
 Print Assumptions C17_de_biguint_value.
 
 (** (sign, sequence): sign values other than -1, 0, 1 are rejected; the value is sign * Σ,
     canonical (so (0, non-zero) and (+-1, zero) both give zero) *)
 Theorem C17_de_bigint : forall v hint w,
-  de_bigint v hint w =
+  de_bigint SP v hint w =
   if (v =? -1) || (v =? 0) || (v =? 1) then
     if forallb is_word w then Some (ienc (v * le_value (2 ^ 32) w)) else None
   else None.
 Proof.
-  intros. rewrite de_bigint_spec. unfold spec_ide, spec_de.
+  intros. rewrite de_bigint_spec by exact sok. unfold spec_ide, spec_de.
   destruct ((v =? -1) || (v =? 0) || (v =? 1)); [|reflexivity]. destruct (forallb is_word w); reflexivity.
 Qed.
 Print Assumptions C17_de_bigint.
-Theorem C17_sign_rejected : forall v hint w, v <> -1 -> v <> 0 -> v <> 1 -> de_bigint v hint w = None.
-Proof. apply de_bigint_rejects. Qed.
+Theorem C17_sign_rejected : forall v hint w, v <> -1 -> v <> 0 -> v <> 1 -> de_bigint SP v hint w = None.
+Proof. intros v hint w; apply (de_bigint_rejects SP v hint w sok). Qed.
 Print Assumptions C17_sign_rejected.
-Theorem C17_sign_roundtrip : forall s, de_sign (ser_sign s) = Some s.
-Proof. apply de_sign_ser. Qed.
+Theorem C17_sign_roundtrip : forall s, de_sign SP (ser_sign SP s) = Some s.
+Proof. intros s; apply (de_sign_ser SP s sok). Qed.
 Print Assumptions C17_sign_roundtrip.
 Theorem C17_sign0_nonzero_is_zero : forall hint w, inb (2 ^ 32) w ->
-  de_bigint 0 hint w = Some (mkint NoSign []).
-Proof. apply de_bigint_sign0. Qed.
+  de_bigint SP 0 hint w = Some (mkint NoSign []).
+Proof. intros hint w; apply (de_bigint_sign0 SP hint w sok). Qed.
 Print Assumptions C17_sign0_nonzero_is_zero.
 Theorem C17_signed_zero_is_zero : forall v hint w, v = 1 \/ v = -1 -> inb (2 ^ 32) w ->
-  le_value (2 ^ 32) w = 0 -> de_bigint v hint w = Some (mkint NoSign []).
-Proof. apply de_bigint_zero_mag. Qed.
+  le_value (2 ^ 32) w = 0 -> de_bigint SP v hint w = Some (mkint NoSign []).
+Proof. intros v hint w; apply (de_bigint_zero_mag SP v hint w sok). Qed.
 Print Assumptions C17_signed_zero_is_zero.
 
 (** round trips, for every value and every size hint *)
 Theorem C17_roundtrip_biguint : forall x hint, canon x ->
-  de_biguint_tokens hint (snd (ser_biguint x)) = Some x.
-Proof. intros; apply de_ser_biguint_tokens; auto. Qed.
+  de_biguint_tokens SP hint (snd (ser_biguint SP x)) = Some x.
+Proof. intros; apply de_ser_biguint_tokens; auto using sok. Qed.
 Print Assumptions C17_roundtrip_biguint.
 Theorem C17_roundtrip_bigint : forall x hint, icanon x ->
-  de_bigint (fst (ser_bigint x)) hint (snd (snd (ser_bigint x))) = Some x.
-Proof. intros; apply de_ser_bigint; auto. Qed.
+  de_bigint SP (fst (ser_bigint SP x)) hint (snd (snd (ser_bigint SP x))) = Some x.
+Proof. intros; apply de_ser_bigint; auto using sok. Qed.
 Print Assumptions C17_roundtrip_bigint.
 
 (** size hints never influence the value *)
 Theorem C17_hint_irrelevant : forall h1 h2 v w,
-  snd (de_biguint_hinted h1 w) = snd (de_biguint_hinted h2 w) /\
-  de_biguint_tokens h1 w = de_biguint_tokens h2 w /\
-  de_bigint v h1 w = de_bigint v h2 w.
+  snd (de_biguint_hinted SP h1 w) = snd (de_biguint_hinted SP h2 w) /\
+  de_biguint_tokens SP h1 w = de_biguint_tokens SP h2 w /\
+  de_bigint SP v h1 w = de_bigint SP v h2 w.
 Proof.
-  intros. destruct (de_hint_irrelevant h1 h2 w) as [H1 H2].
+  intros. destruct (de_hint_irrelevant SP h1 h2 w) as [H1 H2].
   split; [exact H1|split; [exact H2|apply de_bigint_hint_irrelevant]].
 Qed.
 Print Assumptions C17_hint_irrelevant.
@@ -91,9 +97,9 @@ Print Assumptions C17_hint_irrelevant.
    zeros and an odd tail on input, an inconsistent sign, a wrong hint. *)
 Example C17_nonvacuous :
   canonb [4294967296 * 7 + 5; 9] = true /\
-  ser_biguint [4294967296 * 7 + 5; 9] = (3, [5; 7; 9]) /\
-  de_biguint_tokens (Some 1000000000000) [5; 7; 9; 0; 0] = Some [4294967296 * 7 + 5; 9] /\
-  de_bigint 0 None [5; 7; 9] = Some (mkint NoSign []) /\
-  de_bigint (-1) (Some 0) [0; 0; 0] = Some (mkint NoSign []) /\
-  de_bigint 2 None [1] = None.
+  ser_biguint SP [4294967296 * 7 + 5; 9] = (3, [5; 7; 9]) /\
+  de_biguint_tokens SP (Some 1000000000000) [5; 7; 9; 0; 0] = Some [4294967296 * 7 + 5; 9] /\
+  de_bigint SP 0 None [5; 7; 9] = Some (mkint NoSign []) /\
+  de_bigint SP (-1) (Some 0) [0; 0; 0] = Some (mkint NoSign []) /\
+  de_bigint SP 2 None [1] = None.
 Proof. repeat split; vm_compute; reflexivity. Qed.
